@@ -100,6 +100,9 @@ class Run:
         self.counters = {}
         self.outcome = {}
         self.lost = set()
+        self.on_tick = []
+        self.closing = None
+        self.master_at_closing = None
 
     def count(self, name, n=1):
         self.counters[name] = self.counters.get(name, 0) + n
@@ -124,6 +127,8 @@ class Run:
         for _ in range(max_ticks):
             w.run_for(TICK)
             vws = views(w)
+            for cb in self.on_tick:
+                cb(vws)
             if vws and all(v['state'] == 'OPERATION' and not v['starting_jobs'] and not v['stopping_jobs']
                            for v in vws.values()):
                 return True
@@ -268,6 +273,8 @@ class Run:
             w.run_for(2 * TICK)
             self.outcome['quiescent'] = w.quiescent()
             self.outcome['views'] = views(w)
+            if self.rng.random() < knobs.get('closing_p', 0.0):
+                self.do_closing()
             return self.conclude()
         except Runaway:
             # e.g. a restart storm (a program that cannot be spawned with a RESTART strategy): the online monitors
@@ -277,6 +284,42 @@ class Run:
             return [v for monitor in self.monitors for v in monitor.violations]
         finally:
             w.close()
+
+    def do_closing(self):
+        """ supvisors.restart / shutdown requested on a random instance; optionally a non-Master is lost meanwhile. """
+        w, rng = self.world, self.rng
+        w.auto_reboot = False
+        live = [i.nick for i in w.live() if i.sd.options.mood >= 1]
+        vws = views(w)
+        master = self.master()
+        if not live or master is None or master not in live:
+            return
+        comps, cliques = groups(w, vws)
+        comp = next((c for c, ok in zip(comps, cliques) if master in c and ok), None)
+        if comp is None or any(vws[n]['state'] != 'OPERATION' or vws[n]['master'] != vws[master]['master']
+                               for n in comp):
+            return
+        kind = rng.choice(['restart', 'shutdown'])
+        on = rng.choice(comp)
+        self.master_at_closing = master
+        self.closing = {'kind': kind, 'on': on, 'master': master, 'members': list(comp),
+                        'incs': {n: w.instances[n].inc for n in comp}, 'vt': vt(w), 'crashed': []}
+        res = w.user_rpc(on, 'supvisors.' + kind)
+        self.closing['accepted'] = res[0] == 'ok'
+        self.closing['res'] = res[:2]
+        if rng.random() < self.knobs.get('closing_crash_p', 0.25):
+            others = [n for n in comp if n != master and n != on]   # the requester must live to forward the order
+            if others:
+                w.run_for(rng.choice([0.0, 0.2, 1.0, 3.0]))
+                victim = rng.choice(others)
+                if w.instances[victim].alive:
+                    w.crash_instance(victim)
+                    self.closing['crashed'].append(victim)
+        for _ in range(60):
+            w.run_for(TICK)
+            if not [i for i in w.live() if i.nick in comp]:
+                break
+        self.closing['all_exited'] = not [i for i in w.live() if i.nick in comp]
 
     def conclude(self):
             violations = []
@@ -303,7 +346,7 @@ class Run:
                          for a, m in scn['model'].items()},
                 'groups': {s['nick']: {g: list(p) for g, p in s['groups'].items()} for s in scn['instances']},
                 'disabled': {s['nick']: s.get('disabled') for s in scn['instances'] if s.get('disabled')},
-                'injected_faults': getattr(self, 'injected', []),
+                'injected_faults': getattr(self, 'injected', []), 'closing': self.closing,
                 'actions': [{k: v for k, v in a.items() if k != 'res'} |
                             {'res': (a['res'][:2] if isinstance(a.get('res'), tuple) else a.get('res'))}
                             for a in self.actions]}
